@@ -16,6 +16,7 @@ import posixpath
 import random
 
 from .. import project, scenario, schemas, textgen
+from ..textgen import Line
 
 
 def kind(line):
@@ -179,13 +180,35 @@ def run(chk):
     chk.rule = ("base texts: random conforming texts of each family schema, half of them damaged by 1-2 line-level faults, a "
                 "third with a %define and a use of it; for each, the inlined scenario and up to 4 cut variants (1..3 balanced "
                 "cuts, nested, fragments in same / sub / parent directory, decoy files at the places a wrong base URL would "
-                "resolve to) plus one variant with an unbalanced fragment; non-trivial = at least one %include was produced")
+                "resolve to) plus one variant with an unbalanced fragment; one more schema has an abstract slot filled by "
+                "%import-ed types, with %import lines and uses of imported types at random top-level positions; non-trivial = at least one %include was produced")
+    # + a schema with an abstract slot whose implementers come from %import-ed packages: imports before, inside
+    #   and after the fragments (the vocabulary of a load is shared by all its resources, in reading order)
+    from . import c12
+    from .. import packages, tlc
+    import shutil
+    docs = list(docs) + [c12.docs()[0]]
+    imp_sid = len(docs) - 1
+    pkgroot = tlc.mkscratch("zcv-pkg-")
+    packages.build(pkgroot)
     sc = scenario.Scenarios(docs)
+    sc.packages = packages.abstract_packages()
+    sc.proj_recs = c12.proj_recs(sc)
     for sid, doc in enumerate(docs):
         rec = sc.recs[sid]
         vocab = schemas.vocabulary(rec, 40)
         for b in range(nbase):
             lines = textgen.Gen(rng, rec).text()
+            if sid == imp_sid:
+                extra = [Line(x, role=r, cont="", **kw) for x, r, kw in rng.sample(
+                    [("%import zcvpkg_a", "import", {}), ("%import zcvpkg_b", "import", {}),
+                     ("<pa1 n%d/>" % b, "empty", {"type": "pa1", "name": "n%d" % b}),
+                     ("<pb1/>", "empty", {"type": "pb1", "name": None}),
+                     ("<pa2 m%d/>" % b, "empty", {"type": "pa2", "name": "m%d" % b}),
+                     ("%import zcvpkg_a", "import", {})], rng.randint(1, 5))]
+                for e in extra:
+                    tops = [i for i in range(len(lines) + 1) if c08_container_at(lines, i) == ""]
+                    lines.insert(rng.choice(tops), e)
             if rng.random() < 0.5:
                 lines = textgen.damage(rng, lines, vocab, rng.choice([1, 2]))
             if rng.random() < 0.35:
@@ -205,7 +228,19 @@ def run(chk):
             if u is not None:
                 # an unbalanced fragment must be rejected whatever the inlined text does: no twin
                 sc.add(sid, u[0], meta={"cuts": u[1], "unbalanced": True, "resolve": u[2]})
-    outs = sc.run_spec(chk)
+    try:
+        outs = sc.run_spec(chk)
+        _finish(chk, sc, outs)
+    finally:
+        shutil.rmtree(pkgroot, ignore_errors=True)
+
+
+def c08_container_at(lines, pos):
+    from . import c08
+    return c08.container_at(lines, pos)
+
+
+def _finish(chk, sc, outs):
     for i, it in enumerate(sc.items):
         if it["meta"].get("unbalanced") and outs[i]["o"]["r"] != "err":
             from ..core import MachineryError
